@@ -171,7 +171,7 @@ end
 
 /-- the recursive calls agree on a safe plan and its flagged copy -/
 def RecEq (E : Env) (rec : Rec) : Prop :=
-  ∀ (inT out : Ty) (c : Plan) (v : Value), gck E inT out false = some c → Conds E inT out v →
+  ∀ (inT out : Ty) (c : Plan) (v : Value), gck E inT out false = some c → Conds inT out v →
     rec (.wrap out (up c)) v = rec (.wrap out c) v
 
 theorem mapRes_congr {α β} {f g : α → Res β} : ∀ (xs : List α), (∀ x ∈ xs, f x = g x) →
@@ -184,7 +184,7 @@ section Eq
 variable {E : Env} (hU : UnifyLaws E) {rec : Rec} (hrec : RecOK E rec) (heq : RecEq E rec)
 include heq
 
-theorem planFor_eq {it ot : Ty} {p : Plan} {e : Value} (hp : PlanFor E false it ot p) (hc : Conds E it ot e) :
+theorem planFor_eq {it ot : Ty} {p : Plan} {e : Value} (hp : PlanFor E false it ot p) (hc : Conds it ot e) :
     applyOpt rec (up p) e = applyOpt rec p e := by
   rcases hp with ⟨rfl, _⟩ | ⟨c, rfl, hg⟩
   · rfl
@@ -193,25 +193,25 @@ theorem planFor_eq {it ot : Ty} {p : Plan} {e : Value} (hp : PlanFor E false it 
 
 theorem members_eq {ie oe conv} {post : Value → Value} (hpf : PlanFor E false ie oe conv)
     (hwi : wf ie = true) (hoi : hasOpt ie = false) (hwo : wf oe = true) (hdo : hasDyn oe = false)
-    (hreg : regular E ie oe = true) {es : List Value} (hes : ∀ e ∈ es, e.ty = ie ∧ wtP ie e.v = true) :
+    {es : List Value} (hes : ∀ e ∈ es, e.ty = ie ∧ wtP ie e.v = true) :
     mapRes (fun e => (applyOpt rec (up conv) e).map post) es =
       mapRes (fun e => (applyOpt rec conv e).map post) es := by
   apply mapRes_congr
   intro e he
-  rw [planFor_eq heq hpf ⟨(hes e he).1, hwi, hwo, hoi, hdo, hreg, (hes e he).2⟩]
+  rw [planFor_eq heq hpf ⟨(hes e he).1, hwi, hwo, hoi, hdo, (hes e he).2⟩]
 
 theorem applyZip_all_eq {t : Ty} (post : Value → Value) (hwt : wf t = true) (hdt : hasDyn t = false) :
     ∀ (its : List Ty) (cs : List Plan) (ps : List Payload),
     All2 (fun it p => PlanFor E false it t p) its cs → wtZip its ps = true →
-    (∀ it ∈ its, wf it = true ∧ hasOpt it = false ∧ regular E it t = true) →
+    (∀ it ∈ its, wf it = true ∧ hasOpt it = false) →
     applyZip rec post (upL cs) (zipTys its ps) = applyZip rec post cs (zipTys its ps)
   | [], _, [], .nil, _, _ => rfl
   | [], _, _ :: _, _, hw, _ => by simp [wtZip] at hw
   | _ :: _, _, [], _, hw, _ => by simp [wtZip] at hw
   | it :: its, _, p :: ps, .cons hp hps, hw, hall => by
     simp only [wtZip, Bool.and_eq_true] at hw
-    obtain ⟨hwi, hoi, hri⟩ := hall it (by simp)
-    have hc : Conds E it t ⟨it, p⟩ := ⟨rfl, hwi, hwt, hoi, hdt, hri, hw.1⟩
+    obtain ⟨hwi, hoi⟩ := hall it (by simp)
+    have hc : Conds it t ⟨it, p⟩ := ⟨rfl, hwi, hwt, hoi, hdt, hw.1⟩
     simp only [upL, zipTys, applyZip, planFor_eq heq hp hc,
       applyZip_all_eq post hwt hdt its _ ps hps hw.2 fun x hx => hall x (by simp [hx])]
 
@@ -219,20 +219,18 @@ theorem applyZip_zip_eq :
     ∀ (its ots : List Ty) (cs : List Plan) (ps : List Payload),
     All3 (fun it ot p => PlanFor E false it ot p) its ots cs → wtZip its ps = true →
     wfL its = true → hasOptL its = false → wfL ots = true → hasDynL ots = false →
-    regularZip E its ots = true →
     applyZip rec id (upL cs) (zipTys its ps) = applyZip rec id cs (zipTys its ps)
-  | [], _, _, [], .nil, _, _, _, _, _, _ => rfl
-  | [], _, _, _ :: _, _, hw, _, _, _, _, _ => by simp [wtZip] at hw
-  | _ :: _, _, _, [], _, hw, _, _, _, _, _ => by simp [wtZip] at hw
-  | it :: its, ot :: ots, c :: cs, p :: ps, .cons hp hps, hw, hwi, hoi, hwo, hdo, hr => by
+  | [], _, _, [], .nil, _, _, _, _, _ => rfl
+  | [], _, _, _ :: _, _, hw, _, _, _, _ => by simp [wtZip] at hw
+  | _ :: _, _, _, [], _, hw, _, _, _, _ => by simp [wtZip] at hw
+  | it :: its, ot :: ots, c :: cs, p :: ps, .cons hp hps, hw, hwi, hoi, hwo, hdo => by
     simp only [wtZip, Bool.and_eq_true] at hw
     simp only [wfL, Bool.and_eq_true] at hwi hwo
     simp only [hasOptL, Bool.or_eq_false_iff] at hoi
     simp only [hasDynL, Bool.or_eq_false_iff] at hdo
-    simp only [regularZip, Bool.and_eq_true] at hr
-    have hc : Conds E it ot ⟨it, p⟩ := ⟨rfl, hwi.1, hwo.1, hoi.1, hdo.1, hr.1, hw.1⟩
+    have hc : Conds it ot ⟨it, p⟩ := ⟨rfl, hwi.1, hwo.1, hoi.1, hdo.1, hw.1⟩
     simp only [upL, zipTys, applyZip, planFor_eq heq hp hc,
-      applyZip_zip_eq its ots cs ps hps hw.2 hwi.2 hoi.2 hwo.2 hdo.2 hr.2]
+      applyZip_zip_eq its ots cs ps hps hw.2 hwi.2 hoi.2 hwo.2 hdo.2]
 
 omit heq in
 theorem lookupPlan_upL (k : String) : ∀ (ks : List String) (cs : List Plan),
@@ -259,8 +257,8 @@ theorem objAttrLoop_eq {on : List String} {ot : List Ty} {oo : List Bool} {keys 
     simp only [zipTys, objAttrLoop, lookupPlan_upL, hlk, Option.map_some]
     rcases hap with ⟨rfl, _⟩ | ⟨oty, o, hf, hpf⟩
     · simp only [up]; exact ih
-    · have hc : Conds E it oty ⟨it, p⟩ :=
-        ⟨rfl, hwi, (hout oty o hf).1, hoi, (hout oty o hf).2.1, (hout oty o hf).2.2, hw.1⟩
+    · have hc : Conds it oty ⟨it, p⟩ :=
+        ⟨rfl, hwi, (hout oty o hf).1, hoi, (hout oty o hf).2, hw.1⟩
       have hstep := planFor_eq heq hpf hc
       rcases hpf with ⟨rfl, _⟩ | ⟨c', rfl, _⟩
       · simp only [up, ih]
@@ -278,8 +276,8 @@ theorem upL_length : ∀ (cs : List Plan), (upL cs).length = cs.length
 
 theorem inner_eq {E : Env} (hU : UnifyLaws E) {rec : Rec} (hrec : RecOK E rec) (heq : RecEq E rec)
     (inT out : Ty) (c : Plan) (v : Value) (hg : gck E inT out false = some c)
-    (hc : Conds E inT out v) (hp : plain v.v) : applyStep E rec (up c) v = applyStep E rec c v := by
-  obtain ⟨hty, hwI, hwO, hoI, hdO, hreg, hwt⟩ := hc
+    (hc : Conds inT out v) (hp : plain v.v) : applyStep E rec (up c) v = applyStep E rec c v := by
+  obtain ⟨hty, hwI, hwO, hoI, hdO, hwt⟩ := hc
   obtain ⟨vt, vp⟩ := v
   simp only at hty hwt hp
   subst hty
@@ -300,7 +298,6 @@ theorem inner_eq {E : Env} (hU : UnifyLaws E) {rec : Rec} (hrec : RecOK E rec) (
     case list ie =>
       have hwi : wf ie = true := by simpa [wf] using hwI
       have hoi : hasOpt ie = false := by simpa [hasOpt] using hoI
-      have hr : regular E ie oe = true := by simpa [regular, Ty.isDyn] using hreg
       obtain ⟨ps, rfl, hps⟩ := shape_list hp hwt
       have hpf : ∃ conv, c = .collToList oe conv ∧ PlanFor E false ie oe conv := by
         split at hg
@@ -309,14 +306,13 @@ theorem inner_eq {E : Env} (hU : UnifyLaws E) {rec : Rec} (hrec : RecOK E rec) (
           exact ⟨_, rfl, .inr ⟨c', rfl, hc'⟩⟩
       obtain ⟨conv, rfl, hpf⟩ := hpf
       simp only [up, applyStep, elemsOf, Res.bind]
-      rw [members_eq heq hpf hwi hoi hwo hdo hr (by
+      rw [members_eq heq hpf hwi hoi hwo hdo (by
         intro e he
         obtain ⟨p, hpm, rfl⟩ := List.mem_map.mp he
         exact ⟨rfl, wtAll_mem hps p hpm⟩)]
     case set ie =>
       have hwi : wf ie = true := by simpa [wf] using hwI
       have hoi : hasOpt ie = false := by simpa [hasOpt] using hoI
-      have hr : regular E ie oe = true := by simpa [regular, Ty.isDyn] using hreg
       obtain ⟨ids, ps, rfl, hps⟩ := shape_set hp hwt
       have hpf : ∃ conv, c = .collToList oe conv ∧ PlanFor E false ie oe conv := by
         split at hg
@@ -325,17 +321,13 @@ theorem inner_eq {E : Env} (hU : UnifyLaws E) {rec : Rec} (hrec : RecOK E rec) (
           exact ⟨_, rfl, .inr ⟨c', rfl, hc'⟩⟩
       obtain ⟨conv, rfl, hpf⟩ := hpf
       simp only [up, applyStep, elemsOf, Res.bind]
-      rw [members_eq heq hpf hwi hoi hwo hdo hr (by
+      rw [members_eq heq hpf hwi hoi hwo hdo (by
         intro e he
         obtain ⟨p, hpm, rfl⟩ := List.mem_map.mp he
         exact ⟨rfl, wtAll_mem hps p (setValues_mem hpm)⟩)]
     case tuple its =>
       have hwi : wfL its = true := by simpa [wf] using hwI
       have hoi : hasOptL its = false := by simpa [hasOpt] using hoI
-      have hr : ∀ it ∈ its, regular E it oe = true := by
-        have := hreg
-        simp only [regular, Ty.isDyn, Bool.false_eq_true, if_false, Bool.and_eq_true] at this
-        exact all_of_regular this.1
       obtain ⟨ps, rfl, hps⟩ := shape_tuple hp hwt
       split at hg
       · simp at hg; subst hg; rfl
@@ -344,8 +336,8 @@ theorem inner_eq {E : Env} (hU : UnifyLaws E) {rec : Rec} (hrec : RecOK E rec) (
         simp only [seqTargetEty, hnd] at hg
         obtain ⟨cs, hcs, rfl⟩ := Option.map_eq_some_iff.mp hg
         have hpl := gcAll_inv E false oe hcs
-        have hall : ∀ it ∈ its, wf it = true ∧ hasOpt it = false ∧ regular E it oe = true :=
-          fun it hit => ⟨wfL_mem hwi it hit, hasOptL_mem hoi it hit, hr it hit⟩
+        have hall : ∀ it ∈ its, wf it = true ∧ hasOpt it = false :=
+          fun it hit => ⟨wfL_mem hwi it hit, hasOptL_mem hoi it hit⟩
         simp only [up, applyStep, elemsOf, Res.bind, applyZip_all_eq heq id hwo hdo its cs ps hpl hps hall]
         cases hz : applyZip rec id cs (zipTys its ps) with
         | ok es' =>
@@ -367,7 +359,6 @@ theorem inner_eq {E : Env} (hU : UnifyLaws E) {rec : Rec} (hrec : RecOK E rec) (
     case set ie =>
       have hwi : wf ie = true := by simpa [wf] using hwI
       have hoi : hasOpt ie = false := by simpa [hasOpt] using hoI
-      have hr : regular E ie oe = true := by simpa [regular, Ty.isDyn] using hreg
       obtain ⟨ids, ps, rfl, hps⟩ := shape_set hp hwt
       have hpf : ∃ conv, c = .collToSet oe conv ∧ PlanFor E false ie oe conv := by
         split at hg
@@ -376,17 +367,13 @@ theorem inner_eq {E : Env} (hU : UnifyLaws E) {rec : Rec} (hrec : RecOK E rec) (
           exact ⟨_, rfl, .inr ⟨c', rfl, hc'⟩⟩
       obtain ⟨conv, rfl, hpf⟩ := hpf
       simp only [up, applyStep, elemsOf, Res.bind]
-      rw [members_eq heq hpf hwi hoi hwo hdo hr (by
+      rw [members_eq heq hpf hwi hoi hwo hdo (by
         intro e he
         obtain ⟨p, hpm, rfl⟩ := List.mem_map.mp he
         exact ⟨rfl, wtAll_mem hps p (setValues_mem hpm)⟩)]
     case tuple its =>
       have hwi : wfL its = true := by simpa [wf] using hwI
       have hoi : hasOptL its = false := by simpa [hasOpt] using hoI
-      have hr : ∀ it ∈ its, regular E it oe = true := by
-        have := hreg
-        simp only [regular, Ty.isDyn, Bool.false_eq_true, if_false, Bool.and_eq_true] at this
-        exact all_of_regular this.1
       obtain ⟨ps, rfl, hps⟩ := shape_tuple hp hwt
       split at hg
       · simp at hg; subst hg; rfl
@@ -395,8 +382,8 @@ theorem inner_eq {E : Env} (hU : UnifyLaws E) {rec : Rec} (hrec : RecOK E rec) (
         simp only [seqTargetEty, hnd] at hg
         obtain ⟨cs, hcs, rfl⟩ := Option.map_eq_some_iff.mp hg
         have hpl := gcAll_inv E false oe hcs
-        have hall : ∀ it ∈ its, wf it = true ∧ hasOpt it = false ∧ regular E it oe = true :=
-          fun it hit => ⟨wfL_mem hwi it hit, hasOptL_mem hoi it hit, hr it hit⟩
+        have hall : ∀ it ∈ its, wf it = true ∧ hasOpt it = false :=
+          fun it hit => ⟨wfL_mem hwi it hit, hasOptL_mem hoi it hit⟩
         simp only [up, applyStep, elemsOf, Res.bind, applyZip_all_eq heq stripNull hwo hdo its cs ps hpl hps hall]
   | map oe =>
     have hwo : wf oe = true := by simpa [wf] using hwO
@@ -405,7 +392,6 @@ theorem inner_eq {E : Env} (hU : UnifyLaws E) {rec : Rec} (hrec : RecOK E rec) (
     case map ie =>
       have hwi : wf ie = true := by simpa [wf] using hwI
       have hoi : hasOpt ie = false := by simpa [hasOpt] using hoI
-      have hr : regular E ie oe = true := by simpa [regular, Ty.isDyn] using hreg
       obtain ⟨ks, ps, rfl, _, hps⟩ := shape_map hp hwt
       obtain ⟨c', hc', rfl⟩ := hg
       have hpf : PlanFor E false ie oe (.wrap oe c') := .inr ⟨c', rfl, hc'⟩
@@ -415,7 +401,7 @@ theorem inner_eq {E : Env} (hU : UnifyLaws E) {rec : Rec} (hrec : RecOK E rec) (
         apply mapRes_congr
         intro e he
         obtain ⟨p, hpm, rfl⟩ := List.mem_map.mp he
-        have := planFor_eq heq hpf (e := ⟨ie, p⟩) ⟨rfl, hwi, hwo, hoi, hdo, hr, wtAll_mem hps p hpm⟩
+        have := planFor_eq heq hpf (e := ⟨ie, p⟩) ⟨rfl, hwi, hwo, hoi, hdo, wtAll_mem hps p hpm⟩
         simpa [up] using this
       rw [hcongr]
     case object inn its ios =>
@@ -423,10 +409,6 @@ theorem inner_eq {E : Env} (hU : UnifyLaws E) {rec : Rec} (hrec : RecOK E rec) (
         simp only [wf, Bool.and_eq_true] at hwI; exact hwI.2
       have hoi : hasOptL its = false := by
         simp only [hasOpt, Bool.or_eq_false_iff] at hoI; exact hoI.2
-      have hr : ∀ it ∈ its, regular E it oe = true := by
-        have := hreg
-        simp only [regular, Ty.isDyn, Bool.false_eq_true, if_false, Bool.and_eq_true] at this
-        exact all_of_regular this.1
       obtain ⟨ps, rfl, hps⟩ := shape_object hp hwt
       split at hg
       · simp at hg; subst hg; rfl
@@ -435,8 +417,8 @@ theorem inner_eq {E : Env} (hU : UnifyLaws E) {rec : Rec} (hrec : RecOK E rec) (
         simp only [mapTargetEty, hnd] at hg
         obtain ⟨cs, hcs, rfl⟩ := Option.map_eq_some_iff.mp hg
         have hpl := gcAll_inv E false oe hcs
-        have hall : ∀ it ∈ its, wf it = true ∧ hasOpt it = false ∧ regular E it oe = true :=
-          fun it hit => ⟨wfL_mem hwi it hit, hasOptL_mem hoi it hit, hr it hit⟩
+        have hall : ∀ it ∈ its, wf it = true ∧ hasOpt it = false :=
+          fun it hit => ⟨wfL_mem hwi it hit, hasOptL_mem hoi it hit⟩
         simp only [wf, Bool.and_eq_true, beq_iff_eq] at hwI
         have hndI := strictAsc_nodup hwI.1.2
         have hlc : inn.length = cs.length := by rw [hwI.1.1.1]; exact hpl.length
@@ -468,18 +450,15 @@ theorem inner_eq {E : Env} (hU : UnifyLaws E) {rec : Rec} (hrec : RecOK E rec) (
     case tuple its =>
       obtain ⟨hlen, cs, hcs, rfl⟩ := hg
       obtain ⟨ps, rfl, hps⟩ := shape_tuple hp hwt
-      have hr : regularZip E its ots = true := by
-        have := hreg; simp [regular, Ty.isDyn] at this; exact this.2
       have hpl := gcZip_inv E false hlen hcs
       simp only [up, applyStep, elemsOf, Res.bind,
         applyZip_zip_eq heq its ots cs ps hpl hps (by simpa [wf] using hwI) (by simpa [hasOpt] using hoI)
-          (by simpa [wf] using hwO) (by simpa [hasDyn] using hdO) hr]
+          (by simpa [wf] using hwO) (by simpa [hasDyn] using hdO)]
   | object on ot oo =>
     cases vt <;> simp [gck, Ty.isDyn, isPrim] at hg hid
     case object inn its ios =>
       obtain ⟨hreq, cs, hcs, rfl⟩ := hg
       obtain ⟨ps, rfl, hps⟩ := shape_object hp hwt
-      have hr : regularObj E inn its ios on ot = true := by simpa [regular, Ty.isDyn] using hreg
       have hwI' := hwI
       have hwO' := hwO
       have hoI' := hoI
@@ -494,8 +473,7 @@ theorem inner_eq {E : Env} (hU : UnifyLaws E) {rec : Rec} (hrec : RecOK E rec) (
           simp only [List.nil_append] at hf
           refine ⟨wfL_mem hwI'.2 it (find_mem_ty hf), hasOptL_mem hoI'.2 it (find_mem_ty hf), ?_⟩
           intro oty o hfo
-          exact ⟨wfL_mem hwO'.2 oty (find_mem_ty hfo), hasDynL_mem hdO' oty (find_mem_ty hfo),
-            regularObj_find on ot oo hr hfo it b hf⟩)
+          exact ⟨wfL_mem hwO'.2 oty (find_mem_ty hfo), hasDynL_mem hdO' oty (find_mem_ty hfo)⟩)
       simp only [List.nil_append] at hok
       simp only [up, applyStep, elemsOf, keysOf, Res.bind, objAttrLoop_eq heq inn its cs ps hok hps]
 
@@ -514,8 +492,8 @@ theorem recEq_apply {E : Env} (hU : UnifyLaws E) : ∀ n, RecEq E (apply E n) :=
       split
       · -- marked
         rename_i hm
-        have hc' : Conds E inT out v.unmark :=
-          ⟨hc.ty, hc.wfI, hc.wfO, hc.optI, hc.dynO, hc.reg, unmark_wt hm hc.wt⟩
+        have hc' : Conds inT out v.unmark :=
+          ⟨hc.ty, hc.wfI, hc.wfO, hc.optI, hc.dynO, unmark_wt hm hc.wt⟩
         have := hrec inT out c v.unmark hg hc'
         rw [this]
       · rename_i hm
